@@ -54,7 +54,7 @@ var vfC01Spec = vlib.Spec[vfWProg]{
 // A dense sweep over corruptions of the verified fields: one keystore, one export, then 16 imports of differently
 // corrupted copies into the other (empty) wallet; each must be rejected and leave that wallet empty.
 var vfC01SweepSpec = vlib.Spec[vfWProg]{
-	Prop: "C01", Name: "verified-field-corruption-sweep", Scale: 0.25, Min: 2,
+	Prop: "C01", Name: "verified-field-corruption-sweep", Scale: 0.15, Min: 2,
 	Rule: "one keystore with 0-5 external and 0-5 internal keys (optionally after a passphrase change), exported once, then 16 imports into the other wallet of copies with one corruption each in crypto.privParams / crypto.cryptoKeyPrivEnc / crypto.masterHDPrivKeyEnc (bit flip at an independent byte and bit position, bit flip within the last 24 bytes, truncation, non-hex character, type change, removal), then an import of the untouched export; oracle: every corrupted copy is rejected, the target wallet stays equal to the model, the final import restores the exported keystore key by key; non-trivial = >=12 effective corruptions tried; distinct = distinct program JSON",
 	Gen: func(t *rapid.T) vfWProg {
 		p := vfWProg{PubA: vfPubPool[0], PubB: vfPubPool[1]}
